@@ -1203,7 +1203,9 @@ where
     T: Storable,
 {
     fn eq(&self, other: &Self) -> bool {
-        self.handle() == other.handle()
+        //(handles are only unique within the store that holds the item: keys, data and text selections
+        // of different datasets/resources may carry the same handle)
+        std::ptr::eq(self.store, other.store) && self.handle() == other.handle()
     }
 }
 impl<'store, T> Eq for ResultItem<'store, T> where T: Storable {}
@@ -1212,6 +1214,7 @@ where
     T: Storable,
 {
     fn hash<H: Hasher>(&self, state: &mut H) {
+        (self.store as *const T::StoreType).hash(state);
         self.handle().hash(state)
     }
 }
@@ -1220,7 +1223,7 @@ where
     T: Storable,
 {
     fn partial_cmp(&self, other: &Self) -> Option<Ordering> {
-        Some(self.handle().cmp(&other.handle()))
+        Some(self.cmp(other))
     }
 }
 impl<'store, T> Ord for ResultItem<'store, T>
@@ -1228,7 +1231,11 @@ where
     T: Storable,
 {
     fn cmp(&self, other: &Self) -> Ordering {
-        self.handle().cmp(&other.handle())
+        //first by the store that holds the item (stores are kept in a vector, so this is the order of their handles),
+        //then by the handle in that store
+        (self.store as *const T::StoreType)
+            .cmp(&(other.store as *const T::StoreType))
+            .then_with(|| self.handle().cmp(&other.handle()))
     }
 }
 
